@@ -34,6 +34,7 @@ def routing_configs(sizes=(5, 8)):
             dict(env="cvrp", n=n, vcap=0.5),
             dict(env="cvrp", n=n, vcap=2.0),
             dict(env="sdvrp", n=n, vcap=2.0),
+            dict(env="sdvrp", n=n, vcap=0.5),
             dict(env="cvrptw", n=n, scale=False, vcap=0.5),
             dict(env="svrp", n=n),
             dict(env="op", n=n),
@@ -370,6 +371,8 @@ def select_configs(tier="quick"):
         out.append(dict(env="flp", n=n, k=k))
     # more than 25 points (pairwise-distance helpers switch algorithm with the size) and the default size
     out.append(dict(env="flp", n=40, k=4))
+    out.append(dict(env="flp", n=40, k=3, box=(100.0, 101.0)))  # coordinates far from the origin (cancellation in distance helpers)
+    out.append(dict(env="flp", n=300, k=5))  # above block / chunk sizes of pairwise helpers, not a multiple of 256
     if tier != "quick":
         out.append(dict(env="flp", n=100, k=10))
     out.append(dict(env="flp", n=8, k=3, dist="normal", std=1.0))
@@ -460,6 +463,8 @@ def make_other(cfg):
         return E.SMTWTPEnv(generator_params=dict(num_job=cfg["n"]), **kw)
     if name == "flp":
         gp = dict(num_loc=cfg["n"], to_choose=cfg["k"])
+        if cfg.get("box"):
+            gp.update(min_loc=cfg["box"][0], max_loc=cfg["box"][1])
         if cfg.get("dist") == "normal":  # coordinates outside the nominal [min_loc, max_loc] box (documented sampler option)
             gp.update(loc_distribution="normal", loc_mean=0.5, loc_std=cfg.get("std", 1.0))
         return E.FLPEnv(generator_params=gp, **kw)
